@@ -305,7 +305,7 @@ fn special_inputs(rng: &mut Rng) -> Vec<u8> {
 }
 
 pub fn run(ctx: &mut Ctx, which: Which) {
-    let n = ctx.n(1600, 20_000);
+    let n = ctx.n(1600, 60_000);
     ctx.family("exchanges", n, |ctx, rng, i| {
         let (cfg, si) = gen_cfg(ctx, rng, false);
         let x = comm::exchange(ctx, &cfg);
@@ -326,7 +326,7 @@ pub fn run(ctx: &mut Ctx, which: Which) {
     });
     if which.c02 {
         // input delivered exactly once also when the exchange is interrupted by time limits and resumed
-        let nr = ctx.n(200, 2000);
+        let nr = ctx.n(200, 6000);
         ctx.family("resumed-after-timeouts", nr, |ctx, rng, _i| {
             let seed = rng.next() >> 1;
             let cap = 65536u64;
@@ -390,7 +390,7 @@ pub fn run(ctx: &mut Ctx, which: Which) {
         });
         // the cfg(windows) thread-based communicator, executed here over real pipes (unlimited read)
         if crate::win_comm::EXTRACTED {
-            let nw = ctx.n(200, 2000);
+            let nw = ctx.n(200, 6000);
             ctx.family("windows-variant", nw, |ctx, rng, _i| {
                 let cap = 65536u64;
                 let subset = rng.range(1, 7);
@@ -460,7 +460,7 @@ pub fn run(ctx: &mut Ctx, which: Which) {
             });
         }
         // text variants and special byte strings (NUL, invalid UTF-8, sequences cut at chunk boundaries): cat-like child echoes the input
-        let nt = ctx.n(400, 3000);
+        let nt = ctx.n(400, 10_000);
         ctx.family("text-and-special-bytes", nt, |ctx, rng, _i| {
             let data = special_inputs(rng);
             let entry = *rng.pick(&[Entry::ReadString, Entry::ExecCapture, Entry::CommunicateBytes, Entry::CommunicateStr]);
